@@ -4,7 +4,7 @@ import ast
 from . import sql as sqlmod
 from .repo import AnalysisError, dotted
 from .interp_exec import short_name
-from .interp import (Outcome, NORMAL, Frame, CFG_ATTRS, CFG_CLASSES,
+from .interp import (Outcome, NORMAL, Frame, CFG_CLASSES,
                      MAX_DEPTH)
 from .terms import NONE, TRUE, FALSE, const, is_const, strip_wrappers, plain, walk
 
@@ -22,19 +22,23 @@ class CallMixin(object):
         for (s, base) in self.eval(node.value, state, frame):
             if isinstance(base, Outcome):
                 out.append((s, base))
-            else:
-                out.append((s, self.get_attr(base, node.attr, s, frame, node)))
+                continue
+            if base[0] == "obj":
+                fi = self.repo.method(base[1], node.attr)
+                if fi is not None and fi.is_property:
+                    # a @property accessor: reading the attribute runs it
+                    out.extend(self.call_function(fi, base, [], {}, s, frame, node))
+                    continue
+            out.append((s, self.get_attr(base, node.attr, s, frame, node)))
         return out
 
     def get_attr(self, base, attr, state, frame, node):
         k = base[0]
         if k == "obj":
             cls, tag = base[1], base[2]
-            if cls in CFG_CLASSES:
-                if attr == "_db":
-                    return ("db", "chan")
-                if attr in CFG_ATTRS:
-                    return ("cfg", CFG_ATTRS[attr])
+            role = self.names.cfg.get((cls, attr))
+            if role is not None:
+                return role
             if (tag, attr) in state.heap:
                 v = state.heap[(tag, attr)]
                 if (cls, attr) in self.id_attrs:
@@ -161,6 +165,14 @@ class CallMixin(object):
         return out
 
     def get_item(self, base, key, state, frame, node):
+        if base[0] == "row" and is_const(key):
+            # SELECT COUNT(*) [AS n] ... .fetchone()["n"] / [0]: the number of rows
+            # the same WHERE matches
+            st = self.sql_sites.get(base[1])
+            if st is not None and st.kind == "select" and st.cols == ["COUNT()"] and \
+                    not st.extra.get("group_by") and \
+                    key[1] in (st.extra.get("count_alias"), 0, "COUNT(*)", "count(*)"):
+                return ("call", "len", (("rows", base[1]),), ())
         if base[0] == "reg":
             obj = self.registry_get(base, key, state, frame, node)
             if obj is not None:
@@ -270,6 +282,30 @@ class CallMixin(object):
                         kwargs["**"] = v
                 else:
                     kwargs[nme] = v
+            if isinstance(f, ast.Attribute) and isinstance(f.value, ast.Name) and \
+                    head[0] in ("kwdict", "dictlit") and \
+                    f.attr in ("update", "pop", "setdefault", "clear", "popitem"):
+                # a local literal dict is mutated in place: rebind the variable
+                lit = None
+                if f.attr == "update" and not kwargs and len(args) == 1 and \
+                        args[0][0] == head[0]:
+                    lit = args[0][1]
+                elif f.attr == "update" and not args and kwargs and "**" not in kwargs:
+                    lit = tuple((k if head[0] == "kwdict" else ("const", k), v)
+                                for k, v in sorted(kwargs.items()))
+                if lit is not None:
+                    keys = set(k for k, _ in lit)
+                    new = (head[0], tuple((k, v) for (k, v) in head[1] if k not in keys) +
+                           tuple(lit))
+                else:
+                    # contents no longer known (e.g. updated from a generator
+                    # of pairs): every later read is an unknown value
+                    new = ("call", "." + f.attr, (head,) + tuple(args),
+                           tuple(sorted(kwargs.items())))
+                s.envs[frame.fid][f.value.id] = new
+                out.append((s, NONE if f.attr in ("update", "clear") else
+                            ("call", "." + f.attr, (head,) + tuple(args), ())))
+                continue
             if isinstance(f, ast.Attribute):
                 out.extend(self.call_method(head, f.attr, args, kwargs, s, frame, node))
             else:
@@ -339,6 +375,14 @@ class CallMixin(object):
             return [(state, args[0])]
         if name == "isinstance":
             return [(state, ("call", "isinstance", tuple(args), ()))]
+        if name == "getattr" and len(args) >= 2:
+            # getattr(obj, "prefix" + x) with x known on this path
+            nm = self.known_const(args[1], state)
+            if nm is not None and isinstance(nm[1], str) and args[0][0] == "obj":
+                fi = self.repo.method(args[0][1], nm[1])
+                if fi is not None and fi.is_property:
+                    return self.call_function(fi, args[0], [], {}, state, frame, node)
+                return [(state, self.get_attr(args[0], nm[1], state, frame, node))]
         if name == "bool" and len(args) == 1:
             return [(state, ("truth", args[0]))]
         if name == "super":
@@ -361,6 +405,10 @@ class CallMixin(object):
                     "random.randint", "tempfile.mkstemp", "random.random"):
             return [(state, ("call", name, tuple(args), tuple(sorted(kwargs.items())),
                              self.site(frame, node)))]
+        if name == "os.path.split" and len(args) == 1 and not kwargs:
+            # (dirname, basename) of the same path
+            return [(state, ("tuple", (("call", "os.path.dirname", (args[0],), ()),
+                                       ("call", "os.path.basename", (args[0],), ()))))]
         return [(state, ("call", name, tuple(args), tuple(sorted(kwargs.items()))))]
 
     # -- inlining ------------------------------------------------------------------
@@ -385,8 +433,14 @@ class CallMixin(object):
         env = {}
         params = list(fi.params)
         if self_term is not None and params and fi.cls and fi.parent is None:
-            params = params[1:]
-            env[fi.params[0]] = self_term
+            if fi.is_static:
+                pass                      # no implicit first argument
+            elif fi.is_classmethod:
+                params = params[1:]
+                env[fi.params[0]] = ("class", fi.cls)
+            else:
+                params = params[1:]
+                env[fi.params[0]] = self_term
         kwargs = dict(kwargs)
         defaults = fi.defaults
         ndef = len(defaults)
@@ -462,8 +516,51 @@ class CallMixin(object):
                 facts.append((k, v))
             elif sites and any(x[0] in ("rows", "row") and x[1] in sites for x in walk(k)):
                 facts.append((k, v))
-        return (fi.qualname, self_term[1] if self_term else None, tuple(args),
+        # the callee's view of its own object: the attributes it reads, as
+        # they are now (two objects of one class, or one object before and
+        # after an update, must not share a summary)
+        selfkey = None
+        if self_term is not None:
+            selfkey = self_term[1] if len(self_term) > 1 else self_term
+            reads = self._self_reads(fi)
+            if reads and self_term[0] == "obj":
+                tag = self_term[2]
+                vals = []
+                for a in reads:
+                    if (self_term[1], a) in self.names.cfg:
+                        continue
+                    vals.append((a, state.heap.get((tag, a))))
+                if vals:
+                    selfkey = (self_term, tuple(vals))
+        return (fi.qualname, selfkey, tuple(args),
                 tuple(sorted(kwargs.items())), frozenset(facts))
+
+    _self_reads_cache = None
+
+    def _self_reads(self, fi):
+        """names of the attributes of `self` that fi (or a method of its class
+        it calls on self) loads"""
+        if self._self_reads_cache is None:
+            self._self_reads_cache = {}
+        k = id(fi.node)
+        if k in self._self_reads_cache:
+            return self._self_reads_cache[k]
+        self._self_reads_cache[k] = ()
+        if not fi.cls or not fi.params or fi.is_static:
+            return ()
+        me = fi.params[0]
+        out = set()
+        for n in ast.walk(fi.node):
+            if isinstance(n, ast.Attribute) and isinstance(n.value, ast.Name) and \
+                    n.value.id == me:
+                m2 = self.repo.method(fi.cls, n.attr)
+                if m2 is not None:
+                    out.update(self._self_reads(m2))
+                else:
+                    out.add(n.attr)
+        res = tuple(sorted(out))
+        self._self_reads_cache[k] = res
+        return res
 
     def new_merge(self, name, site, alts):
         """value merged over the branches of a pure callee; the alternatives
@@ -553,6 +650,16 @@ class CallMixin(object):
                 out.append((s, obj))
         return out
 
+    def _nt_fields_of_call(self, val, meth):
+        """field names when val is  Record(...)  for a namedtuple class Record"""
+        if isinstance(val, ast.Call) and isinstance(val.func, ast.Name):
+            mod = self.repo.modules[meth.module]
+            if val.func.id in mod.constants:
+                t = self.module_const(mod, val.func.id)
+                if t[0] == "ntclass":
+                    return list(t[2])
+        return None
+
     # -- listener callbacks ------------------------------------------------------
     def listener_callback(self, fn):
         """fn is ('item', elem-of-listeners-values, idx) -> idx, or None"""
@@ -592,6 +699,17 @@ class CallMixin(object):
             raise AnalysisError("no store site for registry %s.%s" % (owner_cls, reg[2]))
         meth, asg = store
         val = asg.value
+        ntf = self._nt_fields_of_call(val, meth)
+        if ntf is not None:
+            # Record(send_f, stop_f): positional view of the record's fields
+            elts = list(val.args) + [None] * (len(ntf) - len(val.args))
+            for kw in val.keywords:
+                if kw.arg in ntf:
+                    elts[ntf.index(kw.arg)] = kw.value
+            if isinstance(idx, str):
+                idx = ntf.index(idx) if idx in ntf else None
+            val = ast.Tuple(elts=[e if e is not None else ast.Constant(value=None)
+                                  for e in elts], ctx=ast.Load())
         if isinstance(val, ast.Tuple) and idx is not None and idx < len(val.elts) and \
                 isinstance(val.elts[idx], ast.Name) and val.elts[idx].id in meth.params:
             pname = val.elts[idx].id
